@@ -86,6 +86,12 @@ func genRcptValue(c *core.Chooser, key string) string {
 		d := string(c.Blob(15, "digits"))
 		return []string{d[:12], d + "+", d + "-", d + "R", d[:14], "20" + d[:12], d[:6] + "T" + d[6:12], d[:8] + "+0800"}[c.Intn(8)]
 	}
+	if c.Prob(1, 12) {
+		// what a parser may take for a number - signed, padded, in another base, out of range - or a colon behind letters
+		// that are only the TAIL of a key ("next:" ends like "text:" and is no key token): still just characters
+		odd := []string{"-1", "-7", "+2", "-0", "-001", "0x1F", "1e3", "-2147483649", "next:1", "Next:9", "ext:204", "xtat:7", "arr:0", "bub:3", "olvrd:1", "xd:5", "late:1"}
+		return odd[c.Intn(len(odd))]
+	}
 	if c.Prob(1, 8) {
 		// a word the specifications define, in another letter case or with a look-alike letter: the value is still
 		// "the characters between the colon and the next space"
@@ -148,6 +154,20 @@ func genRcptValue(c *core.Chooser, key string) string {
 		v = strings.ReplaceAll(v, " ", "_")
 	}
 	return v
+}
+
+// terminalID: the destination of a status report as gateways write it - bare digits, with a country code, with a
+// plus sign or an international prefix in front (at most 21 octets).
+func terminalID(c *core.Chooser) string {
+	d := string(c.Blob(c.Size(21, 11, 13, 21), "digits"))
+	if c.Prob(1, 3) {
+		pre := []string{"+86", "86", "0086", "+1", "+", "00", "+086"}[c.Intn(7)]
+		d = pre + d
+		if len(d) > 21 {
+			d = d[:21]
+		}
+	}
+	return d
 }
 
 func runReceipts(r *core.Run) {
@@ -359,7 +379,7 @@ func runReceipts(r *core.Run) {
 				return t
 			}
 			body := &cmpp.SubPduDeliveryContent{MsgID: id, Stat: stat, SubmitTime: edgeTime(string(c.Blob(c.Size(10, 10), "digits"))),
-				DoneTime: edgeTime(string(c.Blob(c.Size(10, 10), "digits"))), DestTerminalID: string(c.Blob(c.Size(21, 11, 13, 21), "digits")), SMSCSequence: uint32(c.Uint64())}
+				DoneTime: edgeTime(string(c.Blob(c.Size(10, 10), "digits"))), DestTerminalID: terminalID(c), SMSCSequence: uint32(c.Uint64())}
 			m.cmppBody = body
 			var bb []byte
 			var err error
